@@ -93,6 +93,12 @@ CHECKS = {
                   "replay": "interpreted", "max-paths": 3000000,
                   "covers": ["done", "rejected", "leader-ack", "all-ack"],
                   "targets": ["partition).messageProcessingLoop", "partition).processPendingMessage", "partition).commitLoop", "partition).sendAck", "partition).sendTooLargeNack"]},
+                 # the real data path (replicators, follower handlers) with a late replication request from another
+                 # leader epoch: the C02 pipeline harness at a smaller bound; its oracle includes "an ALL-policy ack is
+                 # only out once every in-sync replica holds the message"
+                 {"name": "VerifC02Pipeline", "replay": "interpreted", "max-paths": 3000000, "quick": {"steps": 4, "delayedexpand": 0}, "thorough": {"steps": 5, "delayedexpand": 0},
+                  "covers": ["done", "publish", "fetch-b", "fetch-c", "stale-request"],
+                  "targets": ["partition).handleReplicationRequest", "partition).updateISRLatestOffset", "partition).commitLoop", "replicator).start"]},
              ]},
         ],
     },
